@@ -522,7 +522,9 @@ def main(tier):
                            'FileLock by pysymex symbolic execution of the real code' % src_hash,
             'functions_encoded': [{'function': 'pymap.concurrent:_AsyncioReadWriteLock (whole class, compiled from AST)', 'sha256': src_hash,
                                    'reader_instructions': len(model['reader']), 'writer_instructions': len(model['writer'])},
-                                  {'function': 'pymap.concurrent:FileLock.write_lock/read_lock/_check_lock/_try_lock/_unlock', 'engine': 'pysymex'}],
+                                  {'function': 'pymap.concurrent:FileLock.write_lock/read_lock/_check_lock/_try_lock/_unlock', 'engine': 'pysymex'},
+                                  {'function': 'pymap.backend.maildir.io:_FileWriteWith.__aenter__/__aexit__, FileReadable.file_read, '
+                                               'pymap.backend.maildir.uidlist:UidList.open/read/_read_header/_read_line', 'engine': 'pysymex'}],
             'bounds': results, 'unwinding_K': K,
             'queries_discharged': queries, 'solver_time_s': round(solver_s, 1),
             'cosimulation': {'random_schedules': nco, 'trace_mismatches': mism, 'violating_on_both': viol_random},
@@ -535,7 +537,8 @@ def main(tier):
         'assumptions': ['T tasks, each one acquisition with one suspension inside the critical section; S scheduler steps '
                         '(prefixes of executions, not necessarily whole runs); at most one cancellation',
                         'cooperative asyncio scheduling: FIFO ready queue, a task step is atomic between suspension points',
-                        'FileLock: critical sections shorter than `expiration` (its documented contract); 2 tasks'],
+                        'FileLock: critical sections shorter than `expiration` (its documented contract); 2 tasks',
+                        'with_write: uidlist header / record text up to the stated number of symbolic characters'],
         'wall_s': round(wall, 2), 'violations': len(violations),
     }
     os.makedirs(os.path.join(VERIF, 'evidence'), exist_ok=True)
